@@ -81,7 +81,7 @@ def walk(r, pools, nh, distinct):
 
 
 def gen_case(r, tier):
-    nops = 30 if tier == "quick" else 60
+    nops = 30 if tier == "quick" else 40
     c = {"denoms": DENOMS, "fee_default": "0", "fee_pairs": [], "wl": [], "exempt": []}
     mode = r.below(3)
     if mode >= 1:
@@ -445,7 +445,7 @@ def oracle_selftest(cases, obs, out):
 def correspond(tier, seed, model_ok):
     out = Outcome()
     r = Rng(seed)
-    n = 150 if tier == "quick" else 3000
+    n = 150 if tier == "quick" else 2000
     cases = [gen_case(r.fork(i), tier) for i in range(n)]
     corpus = common.load_corpus(PROP)
     obs = run_cases(corpus + cases, model_ok, out, "q", selftest=True)
@@ -453,7 +453,7 @@ def correspond(tier, seed, model_ok):
     out.rule = ("case = a history of %d messages by 3 actors: 1-4 pool creations (balancer / stableswap, 2-8 assets), all-asset / single-asset / exact-shares joins, "
                 "proportional / single-asset exits, routed swaps (exact-in, exact-out, split; 1-4 hops), bank sends (also to pool addresses), one of 3 taker-fee settings, "
                 "optional whitelists, amounts and limits relative to the live state; non-trivial = at least 5 messages of the history succeeded; distinct = distinct case JSON"
-                % (30 if tier == "quick" else 60))
+                % (30 if tier == "quick" else 40))
     out.samples = [{"fee_default": c["fee_default"], "fee_pairs": c["fee_pairs"], "wl": c["wl"], "ops": c["ops"][:5]} for c in cases[:3]]
     kinds, errs, nassets = {}, {}, {}
     for c, o in zip(corpus + cases, obs):
